@@ -496,6 +496,7 @@ def run_shard(rec, seed, shard, tier):
     warnings.filterwarnings("ignore")
     if shard.get("i", 1) % 2 == 1:
         real.hostile_prelude(rec)  # a past: nothing the check decides may depend on it
+        real.toplevel_probes(rec, None, "after the hostile prelude")
     jax.config.update("jax_enable_x64", False)
     cats = DT.ALL_CATEGORIES
     rng = random.Random(f"{seed}/C15/sample")
